@@ -154,7 +154,7 @@ def evaluate(i, scn):
 
 
 def main():
-    a, rep, replay = parse(PROP)
+    a, rep, replay = parse(PROP, aged=True)
     rep.assumptions = ["cell values are a deterministic function of the cell's own labels, so label/value mix-ups change values",
                        "element order along a dimension may come back sorted (comparison aligns by label)"]
     if replay is not None:
